@@ -431,6 +431,27 @@ func runC11(c *core.Ctx) {
 					c.Violation("second SetPayload failed: "+core.MsgClass(serr2.Error()), id, detail2)
 				} else if c11DSSE(c, id, env, c11Value{kind: v2.kind, payload: v2.payload, tree: v2.tree}, key, tree2JSON) {
 					reuseOK++
+					// ... and so must an envelope that was loaded from a file: set other content (the first
+					// value again), sign, dump - what is signed is what was set last, not what the file held
+					lp := filepath.Join(c.WorkDir, "c11-loaded-then-changed.json")
+					if env.Dump(lp) == nil {
+						if back, lerr := intoto.LoadMetadata(lp); lerr == nil {
+							if lenv, isEnv := back.(*intoto.Envelope); isEnv {
+								// (a value of its own: the values above share collections that were edited in place)
+								fl, ft, _ := gen.GenLink(c.Rand("c11-set-on-loaded", i), true, false)
+								fv := c11Value{kind: "link", payload: fl, tree: ft}
+								fJSON, _ := json.Marshal(ft)
+								var serr3 error
+								if !c.Guard(id, "Envelope.SetPayload (on a loaded envelope)", detail, func() { serr3 = lenv.SetPayload(fl) }) {
+									if serr3 != nil {
+										c.Inconclusive("SetPayload on a loaded envelope refused a generated link")
+									} else if c11DSSE(c, id, lenv, fv, key, fJSON) {
+										reuseOK++
+									}
+								}
+							}
+						}
+					}
 				}
 			}
 		}
@@ -576,7 +597,7 @@ func init() {
 	core.Register(&core.Property{
 		ID:    "C11",
 		Level: "exploration",
-		Rule: "seeded links and layouts with every field populated (strings over an alphabet with quotes, backslashes, all kinds of control characters, DEL, U+2028, <>&, non-ASCII, astral and combining characters; nested by-product/environment values: maps, lists, ints, bools, null, integral and non-integral floats; certificate constraints and CA maps present or absent), rendered in parallel as library structs and as a generic tree with the member names of the in-toto specification. Checks per value: byte equality of GetSignableRepresentation with the reference OLPC canonicalisation; 6 re-serialisations of the file (shuffled member order, random whitespace, alternative spellings of integral numbers) give the same bytes; every single-leaf edit gives different bytes (collision set); a file with one more member or list element anywhere inside the signed part (up to 40 places per value) is refused by the loader or has other signed bytes; non-integral numbers are refused (and a SetPayload that is refused leaves the envelope - GetPayload, the signed payload, the dumped file - as it was); DSSE: SetPayload/Sign/Dump, payload strictly valid JSON, decodes to the set value, LoadMetadata returns the set value and verifies. Read-only calls (ValidateMetablock, GetPayload, Sigs) between signing and verifying must leave the signed bytes and the envelope's payload object as they were. A fifth of the values also with absent (nil) collections: sign, dump, load, verify in both wrappers (no reference bytes there). Re-used objects: after a first Sign+Verify (Metablock) / SetPayload+Sign+Dump (Envelope) the metadata is changed in place through a map or slice it shares with the caller (new product path, new by-product, pubkeys[0], new layout key); the signed bytes must be the canonical JSON of the changed content, the old signature must not verify any more, a new one must verify on a reloaded copy, and a second SetPayload on the same envelope must carry the changed content. " +
+		Rule: "seeded links and layouts with every field populated (strings over an alphabet with quotes, backslashes, all kinds of control characters, DEL, U+2028, <>&, non-ASCII, astral and combining characters; nested by-product/environment values: maps, lists, ints, bools, null, integral and non-integral floats; certificate constraints and CA maps present or absent), rendered in parallel as library structs and as a generic tree with the member names of the in-toto specification. Checks per value: byte equality of GetSignableRepresentation with the reference OLPC canonicalisation; 6 re-serialisations of the file (shuffled member order, random whitespace, alternative spellings of integral numbers) give the same bytes; every single-leaf edit gives different bytes (collision set); a file with one more member or list element anywhere inside the signed part (up to 40 places per value) is refused by the loader or has other signed bytes; non-integral numbers are refused (and a SetPayload that is refused leaves the envelope - GetPayload, the signed payload, the dumped file - as it was); DSSE: SetPayload/Sign/Dump, payload strictly valid JSON, decodes to the set value, LoadMetadata returns the set value and verifies. Read-only calls (ValidateMetablock, GetPayload, Sigs) between signing and verifying must leave the signed bytes and the envelope's payload object as they were. A fifth of the values also with absent (nil) collections: sign, dump, load, verify in both wrappers (no reference bytes there). Re-used objects: after a first Sign+Verify (Metablock) / SetPayload+Sign+Dump (Envelope) the metadata is changed in place through a map or slice it shares with the caller (new product path, new by-product, pubkeys[0], new layout key); the signed bytes must be the canonical JSON of the changed content, the old signature must not verify any more, a new one must verify on a reloaded copy, a second SetPayload on the same envelope must carry the changed content, and so must a SetPayload on an envelope that was loaded from a file (what is signed afterwards is what was set last). " +
 			"non-trivial = value contains a hostile string or an optional member; distinct = hash of the value",
 		Assumptions: []string{"strings are valid UTF-8 (JSON cannot carry anything else)", "all collections are non-nil, so the reference rendering is fixed by the specification's field table (harness/gen/meta.go)", "for DSSE, refusing non-integral numbers is not demanded"},
 		Workers:     func(string) int { return 16 },
